@@ -59,11 +59,12 @@ def profile(name):
 
 
 ASCII_LITS = ["a", "b", "c", "ab", "abc", "ba", "bc", "x", "y", ",", "+", "-", "(", ")", "aa", "=", "xy", ":",
-              "a1", "x_y", "ab-c", "if(", "b2b", "[a", "@b", "a b"]
+              "a1", "x_y", "ab-c", "if(", "b2b", "[a", "@b", "a b", "A", "U", "Z", "Ab", "aB", "X"]
 WS_LITS = [" ", " b", "\n", "\tx", " =", "\r\n", "a ", "\x0cb", "  "]
 UNI_LITS = ["é", "ß", "€", "😀", "ab€", "é́", "Ωx", "K", "ü", "日本", " ", " ", "߿", "ࠀ",
             "￿", "\U00010000", "\U0010ffff", "á", "\x7f", "\x80", "\xff"]
-ASCII_RANGES = [("a", "c"), ("a", "z"), ("0", "9"), ("x", "z"), ("A", "Z"), ("b", "b"), (" ", "~"), ("c", "a")]
+ASCII_RANGES = [("a", "c"), ("a", "z"), ("0", "9"), ("x", "z"), ("A", "Z"), ("b", "b"), (" ", "~"), ("c", "a"), ("A", "z"), ("0", "z"), (" ", " "),
+                ("\t", "\r")]
 UNI_RANGES = [("\x7f", "\x80"), ("a", "é"), ("à", "ÿ"), ("Ā", "߿"), ("ࠀ", "￿"),
               ("\U00010000", "\U0010ffff"), ("z", " "), ("😀", "😏"), ("\x00", "\x7f"), ("ÿ", "à")]
 CHECK_FNS = ["chk0", "chk1", "chk2", "chk3"]
@@ -88,6 +89,10 @@ class Gen:
         s = self.r.choice(UNI_LITS if uni else ASCII_LITS)
         if self.coin(self.p.get("p_ws_lit", 0.03)):
             s = self.r.choice(WS_LITS)  # literals that begin/end with whitespace characters (also in skipping rules)
+        elif self.coin(self.p.get("p_comp_lit", 0.2)):
+            # compositional literal: length 1-4, characters drawn from mixed classes (case, digits, punctuation, multi-byte)
+            cls = "abxyABXY019_-+(" + ("é€😀ß" if uni else "")
+            s = "".join(self.r.choice(cls) for _ in range(self.r.choice([1, 1, 2, 2, 3, 4])))
         insens = (not uni or s.isascii()) and self.coin(self.p["p_insens"])
         if insens:
             s = "".join(c.upper() if self.coin(0.5) else c for c in s)
@@ -270,6 +275,10 @@ class Gen:
         if self.coin(p["p_memo"]):
             d.append("memoize")
         d += self.checks()
+        if d and self.coin(0.05):
+            dup = self.r.choice([x for x in d if not isinstance(x, tuple)] or [None])
+            if dup:
+                d.append(dup)  # a directive written twice means the same as once
         self.r.shuffle(d)
         self.cur = nm
         self.cur_i = i
